@@ -1,5 +1,5 @@
 #!/bin/bash
-# lib/mut.sh <check id> <repo-relative file> <python-replace old> <new>  : apply a one-line mutation to /repo, run the quick check, revert.
+# lib/mut.sh <check id> <repo-relative file> <old> <new>  : apply a one-line mutation to /repo, run the quick check, revert.
 id=$1; f=$2; old=$3; new=$4
 cd /repo || exit 2
 git diff --quiet || { echo "repo dirty"; exit 2; }
@@ -10,5 +10,5 @@ s=open(p).read()
 assert s.count(old)>=1, "pattern not found"
 open(p,'w').write(s.replace(old,new,1))
 PY
-cd /verif && VERIF_BUDGET_S=${VERIF_BUDGET_S:-200} ./check $id quick | grep -E "^(VIOLATION|HARNESS|check=)" | cut -c1-300 | head -8
+cd /verif && VERIF_BUDGET_S=${VERIF_BUDGET_S:-200} ./check $id quick | grep -E "^(VIOLATION|HARNESS|KNOWN|check=)" | cut -c1-${CUT:-300} | head -${HEAD:-8}
 cd /repo && git checkout -- . 
